@@ -182,6 +182,18 @@ def operators(ctx, L):
         L.check(nows(f.body.text) == '{%s<<%s(%s);return%s;}' % (o, cast, x, o), 'C18.byte-operators',
                 'operator<<(%s)' % pt, f.site(), 'one-byte integers must print as numbers (%s(x)), not characters' % cast,
                 f.body.text)
+    # two-phase lookup: `out << x` inside the printer templates is bound to the operator<< overloads *visible at the template
+    # definition* (int8_t / uint8_t are fundamental types: nothing is found later by argument-dependent lookup), so the two
+    # byte-as-number overloads must be declared before the first printer template that streams a value
+    byte_ops = [one(cx, 'operator<<', lambda g, pt=pt: [t for _, t in g.params][1:] == [pt]) for pt in ('int8_t', 'uint8_t')]
+    users = [g for g in cx.functions('print', file_suffix='detail/printer.hpp') if (g.owner or '').startswith('printer<')]
+    first_use = min([g.node.line for g in users if g.node.line] or [0])
+    last_decl = max([g.node.line for g in byte_ops if g.node.line] or [10 ** 9])
+    same_file = all((g.node.file or '').endswith('detail/printer.hpp') for g in byte_ops)
+    L.check(bool(users) and same_file and last_decl < first_use, 'C18.byte-operators', 'operator<<(int8_t/uint8_t)|declared-before-templates',
+            byte_ops[0].site(), 'the int8_t / uint8_t stream operators (printer.hpp:%s) must be declared before the printer templates that use '
+            '`out << x` (first at line %s): declared after them they are not found for these fundamental types and every u8 / i8 field is '
+            'printed as a raw character instead of a number' % (last_decl, first_use), '')
     f = one(cx, 'operator<<', lambda g: 'pair' in g.params[1][1])
     t = nows(f.body.text)
     o, b = f.params[0][0], f.params[1][0]
